@@ -21,6 +21,7 @@ from .exceptions import (
     NoSuchParameter,
     MPilotError,
     ProgramError,
+    RecursiveModelStructure,
 )
 from .params import ResultParameter, ListParameter
 from .parser.parser import Parser, ProgramNode
@@ -286,6 +287,7 @@ class Program(object):
     def run(self):
         # Build dependency lookup
         dependents = {}  # {result_name, [dependent_name, ...], ...}
+        referenced = {}  # {result_name: [commands of this program it references, ...], ...}
 
         for command in self.commands.values():
             references = []
@@ -304,9 +306,35 @@ class Program(object):
                             x for x in flatten(value) if isinstance(x, Command)
                         ]
 
+                    for x in flatten(value) if isinstance(value, (list, tuple)) else [value]:
+                        if isinstance(x, Command) and self.commands.get(x.result_name) is x:
+                            referenced.setdefault(command.result_name, []).append(x)
+
             for reference in references:
                 dependents[reference] = dependents.get(reference, set())
                 dependents[reference].add(command.result_name)
+
+        # A reference cycle is reported before anything runs: running into it is not certain to find it (a command need
+        # not read every result it references, and a result computed by an earlier run is not computed again)
+        visited = set()
+        for start in self.commands.values():
+            if start.result_name in visited:
+                continue
+
+            path = [(start, iter(referenced.get(start.result_name, ())))]
+            on_path = {start.result_name}
+            while path:
+                command, rest = path[-1]
+                following = next(rest, None)
+                if following is None:
+                    visited.add(command.result_name)
+                    on_path.discard(command.result_name)
+                    path.pop()
+                elif following.result_name in on_path:
+                    raise RecursiveModelStructure(command.lineno)
+                elif following.result_name not in visited:
+                    on_path.add(following.result_name)
+                    path.append((following, iter(referenced.get(following.result_name, ()))))
 
         # Find and run leaf nodes (commands without any dependents)
         for command in (
